@@ -366,7 +366,7 @@ func TestC14Sio(t *testing.T) {
 	if f, known := ev.IsKnown("C14", "C14/sio-repeated-list-member"); known && !ev.Replaying() {
 		_ = f
 	}
-	ev.Run(t, ev.Opts{Property: "C14", Name: "sio", Quick: 1200, Thorough: 100000,
+	ev.Run(t, ev.Opts{Property: "C14", Name: "sio", Quick: 1200, Thorough: 60000,
 		Rule: "recorder crews (0-6 machines) x 1-6 submitted messages whose 'to' is absent, a known/unknown id, '*', a list with unknown, repeated and non-string members, a service name or a non-string, and whose 'emit' trees (depth <= 3) are re-injected; per machine the multiset of received messages and the multiset of reported emission batches must equal the routing model's; non-trivial = >= 2 machines, >= 1 routed, >= 1 broadcast and >= 1 re-injected message"},
 		genRoute, checkRoute)
 }
